@@ -625,6 +625,7 @@ def core_hooks(extra_ext=None):
         "numpy.reciprocal": lambda x: OpTok("reciprocal", x, None) if isinstance(x, ArrTok) else x,
         "numpy.logical_not": lambda x: OpTok("logical_not", x, None) if isinstance(x, ArrTok) else x,
         "numpy.asarray": _np_asarray, "numpy.asanyarray": _np_asarray, "numpy.ascontiguousarray": _np_asarray,
+        "numpy.isscalar": lambda x: isinstance(x, (bool, int, float, complex, str, bytes)) or ("generic" in getattr(x, "kinds", ()) and "ndarray" not in getattr(x, "kinds", ())),
         "numpy.array": lambda x, *a, **k: (_np_asarray(x, *a, **{kk: vv for kk, vv in k.items() if kk != "copy"}).copy() if isinstance(x, RawTok) and k.get("copy", True) else _np_asarray(x, *a, **k)),
     }
     if extra_ext:
